@@ -244,6 +244,15 @@ fn enum_large(_tier: Tier, f: &mut dyn FnMut(SeqCase) -> bool) {
         new.extend_from_slice(&old[..k]);
         cases.push(SeqCase::full(1, old, new));
     }
+    // a rotation of distinct items: every item is a unique common item, the longest in-order set is
+    // the larger part; the two unique lists are hundreds of edits apart
+    for n in [700u32, 1500] {
+        let old: Vec<u32> = (0..n).collect();
+        let k = (n * 3 / 7) as usize;
+        let mut new = old[k..].to_vec();
+        new.extend_from_slice(&old[..k]);
+        cases.push(SeqCase::full(1, old, new));
+    }
     for mut c in cases {
         c.mode = 0;
         if !f(c) {
@@ -285,7 +294,7 @@ impl Prop for C15 {
             Stage {
                 name: "large",
                 kind: StageKind::Enumerate {
-                    scope: "6 fixed cases: 300 / 520 / 1100 unique common items that cross (evens before odds; exchanged thirds), outnumbered by repeated filler".into(),
+                    scope: "8 fixed cases: 300 / 520 / 1100 unique common items that cross (evens before odds; exchanged thirds), outnumbered by repeated filler; rotations of 700 and 1500 distinct items".into(),
                     exhaustive: true,
                     gen: enum_large,
                 },
